@@ -99,7 +99,9 @@ where
     b = -b;
     let a = a.into_iter();
 
-    let mut q = vec![F::ZERO; a.len() - 1];
+    // The quotient of a polynomial without coefficients (the zero polynomial) is
+    // the zero polynomial.
+    let mut q = vec![F::ZERO; a.len().saturating_sub(1)];
 
     let mut tmp = F::ZERO;
     for (q, r) in q.iter_mut().rev().zip(a.rev()) {
